@@ -12,8 +12,8 @@ U_ATOMS = [
     "http://é/", "u#", "GO", "http", "http://x/a_b", "urn:x:", "a", "a:", "http://y#", "https://x/",
 ]
 U_EXT = "_/#aA1é:b"
-P_ATOMS = ["a", "A", "b", "ab", "a.b", "GO", "go", "http", "é", "", "B", "x y", "a_b", "urn", "GO:x", "a/b", "p|q"]
-IDS = ["", "1", "0001", "a/b", "a#b", "a b", "é", "x", "a_1", "A_", "//x", "b", "_", "GO:1"]
+P_ATOMS = ["a", "A", "b", "ab", "a.b", "GO", "go", "http", "é", "", "B", "x y", "a_b", "urn", "GO:x", "a/b", "p|q", " a", "a ", "1", "http://x/", "ſ", "İ", "a\nb"]
+IDS = ["", "1", "0001", "a/b", "a#b", "a b", "é", "x", "a_1", "A_", "//x", "b", "_", "GO:1", "a\nb", "?q=1&r=2", "a%20b", " 1", "1 ", "x" * 300, "\t"]
 UNICODE = ["日本", "é́", "😀", "ß", "İ", "ǅ", "​", "퟿", "\U0010ffff"]
 PATTERNS = [None, None, "^\\d+$", "^[A-Z]{2}\\d{4}$", "", "a|b", "\\\\"]
 
@@ -74,6 +74,10 @@ def records(rng, delimiter=":", nmin=0, nmax=6, allow_delim=False, patterns=Fals
         for _ in range(rng.randint(0, max_syn)):
             if len(ups) > n - i:
                 us.append(ups.pop())
+        if ps and rng.random() < 0.04:
+            ps.append(ps[0])  # a record may repeat one of its own synonyms: one claim, not a clash
+        if us and rng.random() < 0.04:
+            us.append(us[-1])
         out.append(spec.Rec(p, u, tuple(ps), tuple(us), rng.choice(PATTERNS) if patterns else None))
     return out
 
